@@ -413,3 +413,84 @@ pub fn spin_until(deadline_ns: u64) {
         std::hint::spin_loop();
     }
 }
+
+// ---------------------------------------------------------------------------------------------
+// abort reporter: which case was running when the process was killed by abort()
+// (a panic while panicking, an allocation failure ... cannot be caught in-process)
+
+pub static CURRENT_CASE: AtomicU64 = AtomicU64::new(0);
+/// up to eight ASCII bytes naming the replay mode of the current case
+pub static CURRENT_MODE: AtomicU64 = AtomicU64::new(0);
+pub static CURRENT_MODE2: AtomicU64 = AtomicU64::new(0);
+static SIDE_FD: std::sync::atomic::AtomicI32 = std::sync::atomic::AtomicI32::new(-1);
+
+pub fn current_case(seed: u64, mode: &str) {
+    let mut m = [0u8; 16];
+    for (i, b) in mode.bytes().take(16).enumerate() {
+        m[i] = b;
+    }
+    CURRENT_MODE.store(u64::from_le_bytes(m[..8].try_into().unwrap()), Ordering::Relaxed);
+    CURRENT_MODE2.store(u64::from_le_bytes(m[8..].try_into().unwrap()), Ordering::Relaxed);
+    CURRENT_CASE.store(seed, Ordering::Relaxed);
+}
+
+extern "C" fn on_abort(_sig: libc::c_int) {
+    // async-signal-safe: format into a stack buffer, one write(2)
+    let fd = SIDE_FD.load(Ordering::Relaxed);
+    if fd < 0 {
+        return;
+    }
+    let mut buf = [0u8; 64];
+    let mut n = 0;
+    for b in b"ABORTED " {
+        buf[n] = *b;
+        n += 1;
+    }
+    let mut v = CURRENT_CASE.load(Ordering::Relaxed);
+    let mut digits = [0u8; 20];
+    let mut k = 0;
+    loop {
+        digits[k] = b'0' + (v % 10) as u8;
+        k += 1;
+        v /= 10;
+        if v == 0 {
+            break;
+        }
+    }
+    while k > 0 {
+        k -= 1;
+        buf[n] = digits[k];
+        n += 1;
+    }
+    buf[n] = b' ';
+    n += 1;
+    for w in [CURRENT_MODE.load(Ordering::Relaxed), CURRENT_MODE2.load(Ordering::Relaxed)] {
+        for b in w.to_le_bytes() {
+            if b != 0 {
+                buf[n] = b;
+                n += 1;
+            }
+        }
+    }
+    buf[n] = b'\n';
+    n += 1;
+    unsafe {
+        libc::write(fd, buf.as_ptr() as *const libc::c_void, n);
+    }
+    // returning lets abort() finish the job with the default action
+}
+
+/// Installs a SIGABRT handler that appends "ABORTED <case seed> <mode>" to $VH_SIDE_FILE.
+pub fn install_abort_reporter() {
+    if let Ok(p) = std::env::var("VH_SIDE_FILE") {
+        if let Ok(c) = std::ffi::CString::new(p) {
+            let fd = unsafe { libc::open(c.as_ptr(), libc::O_WRONLY | libc::O_CREAT | libc::O_APPEND, 0o644) };
+            if fd >= 0 {
+                SIDE_FD.store(fd, Ordering::Relaxed);
+                unsafe {
+                    libc::signal(libc::SIGABRT, on_abort as extern "C" fn(libc::c_int) as usize);
+                }
+            }
+        }
+    }
+}
